@@ -34,6 +34,8 @@ class Unit:
         self.rules = collections.Counter()
         self.literals = collections.OrderedDict()   # string literal text (with quotes) -> small id
         self.slices = {}                            # fn key -> AST statement kind at which the extracted slice starts
+        self.summaries = {}                         # (fn key, loop ordinal) -> C statements replacing the loop
+        self.ghosts = {}                            # (fn key, location) -> [C statements] (ghost code from the contract)
 
     # -- services used by FnTranslator ---------------------------------------------------------------
     def need_type(self, t):
@@ -99,6 +101,12 @@ class Unit:
                 raise Unsupported('more than 62 distinct string literals in one unit')
         return self.literals[lit]
 
+    def loop_summary(self, key, k):
+        return self.summaries.get((key, k))
+
+    def ghost(self, key, where):
+        return self.ghosts.get((key, where), [])
+
     def slice_for(self, key):
         return self.slices.get(key)
 
@@ -125,6 +133,8 @@ class Unit:
             self.wanted.append(key)
 
     def _fn(self, key, need_body=True):
+        if '#loop' in key:
+            key = key.rsplit('#loop', 1)[0]
         fn = self.P.functions.get(key)
         if fn is None and not need_body:
             q = re.sub(r'[<#].*$', '', key)
